@@ -264,7 +264,7 @@ LINKS = [
     ('mapped-slice-item', 'm[1:6][2]'), ('mapped-in-list', '[m[::-1], 0]'), ('map1-item', 'm1[1]'), ('map1-whole', 'm1'),
     ('currymap-item', 'cm[1]'), ('mapreduce', 'mr'), ('reduce', 'rd'), ('identity', 'identity(a)'), ('identity-list', 'identity([a, 2])'),
     ('iteratetask', 'it0'), ('return-tuple', 'rt1'), ('customhash-plain', None), ('numpy', 'ar'), ('none', 'nl'),
-    ('duplicate-producer', None), ('duplicate-consumer', None), ('sibling-consumers', None),
+    ('duplicate-producer', None), ('duplicate-consumer', None), ('sibling-consumers', None), ('typed-siblings', None),
 ]
 
 SINGLE_PRELUDE = """a = mk(1, 5)
@@ -306,6 +306,12 @@ def single_link_programs():
             line = ('a = mk(1, 5)\nrt0, rt1, rt2 = pair2(6, a, 1)\nit0, it1 = iteratetask(a, 2)\n'
                     'q = pair(4, [a, 1], [2, 3])\n'
                     'c = [same(rt0), same(rt1), same(rt2), same(it0), same(it1), same(a[2]), same(a[3]), same(a[1:3]), same(a[2:4]), same(q[0][1]), same(q[1][1]), same(q[1][0])]\ne = use(21, c)\n')
+        elif kind == 'typed-siblings':
+            # the same function applied to arguments that are equal element by element but differ in a type somewhere (list / tuple, int / bool / float,
+            # str / bytes, positional / keyword): different invocations with different values
+            line = ('c = [same([1, 2]), same((1, 2)), same([[1, 2], [3, 4]]), same([(1, 2), (3, 4)]), same(([1, 2], [3, 4])), same(1), same(True), same(1.0), same("a"), same(b"a"), '
+                    'same({"k": [1]}), same({"k": (1,)}), same(None), same(0), same(False), same([]), same(()), same({}), same([None]), same((None,)), same([0]), same([False]), same("1"), same([1]), same((1,))]\n'
+                    'kw = [use(40, 1), use(41, 0, kw=1), use(42, [1, 2]), use(43, (1, 2)), use(44, 0, kw=[1, 2]), use(45, 0, kw=(1, 2))]\ne = use(21, c)\n')
         elif kind == 'customhash-plain':
             line = 'c = use(20, CustomHash([1, 2], hash_one), other=NoHash(3))\ne = inc(21, c)\n'
         else:
@@ -325,8 +331,32 @@ def single_link_programs():
                     keep[j] = True
                     needed |= set(_re.findall(r'[A-Za-z_][A-Za-z_0-9]*', rhs))
                     changed = True
-        if kind.startswith('duplicate') or kind == 'sibling-consumers':
+        if kind.startswith('duplicate') or kind in ('sibling-consumers', 'typed-siblings'):
             keep = [False] * len(plines)
         prelude = ''.join(pl + '\n' for j, pl in enumerate(plines) if keep[j]) + 'z = const(30)\n'
         out.append(FixedProgram(HEADER + prelude + line, {'single-link:' + kind: 1}))
+    return out
+
+
+# ------------------------------------------------------------------------------------------------ containers filled after the consumer exists
+# A task may be handed a list / dict that the jugfile goes on filling with tasks afterwards (jug looks at the arguments when it needs them,
+# not when the Task object is made). The dependent then precedes its dependencies in creation order. Plain Python would call the function
+# at once, so these programs have no plain twin: they are judged by what each task really reads / receives in a cache-free sequential run.
+LATE = [
+    ('late-list', 'lst = []\nc = use(20, lst)\na = mk(1, 5)\nlst.append(a)\ne = inc(21, c)\n'),
+    ('late-list-item', 'lst = [0]\nc = use(20, lst)\na = mk(1, 5)\nlst.append(a[1])\nlst.insert(0, a[2])\ne = inc(21, c)\n'),
+    ('late-dict', 'dd = {}\nc = use(20, dd)\na = mk(1, 5)\ndd["k"] = a\ne = inc(21, c)\n'),
+    ('late-keyword', 'lst = []\nc = use(20, 0, kw=lst)\na = mk(1, 5)\nlst.append(a)\ne = inc(21, c)\n'),
+    ('late-nested', 'inner = []\nc = use(20, [inner, {"k": inner}])\na = mk(1, 5)\ni = idx(31, 3)\ninner.append(a[i])\ne = inc(21, c)\n'),
+    ('late-chain', 'l1 = []\nl2 = []\nc = use(20, l1)\nd2 = use(22, [c, l2])\na = mk(1, 5)\nb = mk(2, 4)\nl2.append(b)\nl1.append(a)\ne = inc(21, d2)\n'),
+    ('late-mapped', 'lst = []\nc = use(20, lst)\nm = jmap(dbl, list(range(1, 8)), map_step=3)\nlst.append(m[1:5])\nlst.append(m[2])\ne = inc(21, c)\n'),
+]
+
+
+def late_fill_programs():
+    out = []
+    for kind, body in LATE:
+        fp = FixedProgram(HEADER + body + 'z = const(30)\n', {'late-fill:' + kind: 1})
+        fp.late = True
+        out.append(fp)
     return out
